@@ -89,7 +89,7 @@ type SCplx complex64
 // which sources can be given a leaf of this kind at all (the others are still run: they must not panic)
 func envSupports(kind string) bool {
 	switch kind {
-	case "time", "durs", "structs", "pdurs", "ip", "uptr":
+	case "time", "durs", "structs", "pdurs", "ip", "uptr", "nkset", "nkmss":
 		return false // (uintptr: the text parser has no such kind; the variable is still supplied, it must not panic)
 	}
 	return true
@@ -97,7 +97,7 @@ func envSupports(kind string) bool {
 
 func flagSupports(kind string) bool {
 	switch kind {
-	case "durs", "structs", "nstrs", "nmap", "lnamed", "mnamed", "knamed", "pdurs":
+	case "durs", "structs", "nstrs", "nmap", "lnamed", "mnamed", "knamed", "pdurs", "nkset", "nkmss":
 		return false // no flag is registered for such a leaf
 	}
 	return true
@@ -105,7 +105,7 @@ func flagSupports(kind string) bool {
 
 func docSupports(kind string) bool {
 	switch kind {
-	case "named", "c64", "knamed", "ncplx":
+	case "named", "c64", "knamed", "ncplx", "nkset", "nkmss":
 		return false // not expressible alike in all four formats
 	}
 	return true
@@ -230,6 +230,10 @@ func kindType(k string) reflect.Type {
 		return reflect.TypeOf(map[string]SCount(nil))
 	case "knamed":
 		return reflect.TypeOf(map[SName]string(nil))
+	case "nkset":
+		return reflect.TypeOf(map[SName]struct{}(nil))
+	case "nkmss":
+		return reflect.TypeOf(map[SName][]string(nil))
 	case "uptr":
 		return reflect.TypeOf(uintptr(0))
 	case "ncplx":
@@ -357,6 +361,10 @@ func leafValue(kind string, id int) (reflect.Value, string, interface{}) {
 		return reflect.ValueOf(map[string]SCount{fmt.Sprintf("k%d", id): SCount(id)}), fmt.Sprintf(`"k%d":%d`, id, id), map[string]interface{}{fmt.Sprintf("k%d", id): id}
 	case "knamed":
 		return reflect.ValueOf(map[SName]string{SName(fmt.Sprintf("k%d", id)): "v"}), fmt.Sprintf(`"k%d":"v"`, id), map[string]interface{}{fmt.Sprintf("k%d", id): "v"}
+	case "nkset": // sets / string-slice maps keyed by a user-defined string type
+		return reflect.ValueOf(map[SName]struct{}{SName(fmt.Sprintf("m%d", id)): {}}), fmt.Sprintf(`"m%d"`, id), []interface{}{fmt.Sprintf("m%d", id)}
+	case "nkmss":
+		return reflect.ValueOf(map[SName][]string{SName(fmt.Sprintf("k%d", id)): {"v"}}), fmt.Sprintf(`"k%d":"v"`, id), map[string]interface{}{fmt.Sprintf("k%d", id): []interface{}{"v"}}
 	case "uptr":
 		return reflect.ValueOf(uintptr(4000 + id)), fmt.Sprint(4000 + id), 4000 + id
 	case "ncplx":
